@@ -61,9 +61,13 @@ AddStep(s) ==
   /\ cfg' = [cfg EXCEPT ![s.param] = s.val]
   /\ UNCHANGED kind
 \* function settings exist in a Result style and an Any style ("r" / "a"); which one is used must not matter
-StyleOK(k, s) == IF s.param \in {"prep", "exec", "post"} /\ (k = "node" \/ s.param = "exec") THEN s.sty \in {"r", "a"} ELSE s.sty = "r"
-CfgNext == \E p \in Params : \E f \in Forms : \E v \in {0, 1, 2, 3} : \E y \in {"r", "a"} :
-              StyleOK(kind, [param |-> p, sty |-> y]) /\ AddStep([param |-> p, form |-> f, val |-> v, sty |-> y])
+\* a constructor option for a scalar parameter can be handed over as a flyt.NodeOption or as a plain func(*BaseNode)
+\* value ("f": options kept in a []func(*flyt.BaseNode), a struct field, a helper's return value); again it must not matter
+StyleOK(k, s) == IF s.param \in {"prep", "exec", "post"} /\ (k = "node" \/ s.param = "exec") THEN s.sty \in {"r", "a"}
+                 ELSE IF s.param \in {"retries", "wait", "conc", "mode"} /\ s.form = "opt" THEN s.sty \in {"r", "f"}
+                 ELSE s.sty = "r"
+CfgNext == \E p \in Params : \E f \in Forms : \E v \in {0, 1, 2, 3} : \E y \in {"r", "a", "f"} :
+              StyleOK(kind, [param |-> p, form |-> f, sty |-> y]) /\ AddStep([param |-> p, form |-> f, val |-> v, sty |-> y])
 CfgSpec == CfgInit /\ [][CfgNext]_cvars
 
 \* stepwise application and the "last setting wins" definition agree; unrelated parameters are untouched
